@@ -420,21 +420,21 @@ def deserString : Cfg → Cur → R Val
       | .err e c => .err e c
       | .ok s c => .ok (.str s) c
 
-/-- `deserialize_str` (identifiers, `&str`) -/
-def deserStr : Cur → R (List Char)
-  | c =>
+/-- `deserialize_str` (identifiers, `&str`): end of input and a non-scalar event are rejected here; a
+scalar is handed to `deserialize_string` (same null, `no_schema`, tag and `!!binary` handling as an
+owned string). Whether the visitor gets a borrowed or an owned string is not modelled (both are the
+same characters). -/
+def deserStr : Cfg → Cur → R (List Char)
+  | cfg, c =>
     match c.peek with
     | .err e c => .err e c
     | .ok none c => .err (eofErr c) c
-    | .ok (some (.scalar v tag _ st _ l)) c =>
-      if tag == tagNull || scalarIsNullish v st then
-        match c.next with
-        | .err e c => .err e c
-        | .ok _ c => .err ⟨"NullIntoString", l, 0⟩ c
-      else
-        match c.next with
-        | .err e c => .err e c
-        | .ok _ c => .ok v c
+    | .ok (some (.scalar ..)) c =>
+      match deserString cfg c with
+      | .err e c => .err e c
+      | .ok (.str s) c => .ok s c
+      -- `deserialize_string` only ever calls `visit_string` / `visit_borrowed_str`
+      | .ok _ c => .err ⟨"ModelMisuse", 0, 0⟩ c
     | .ok (some other) c => .err ⟨"Unexpected", other.loc, 0⟩ c
 
 /-- scalar branch of `deserialize_any` (the event is known to be a scalar) -/
@@ -1088,7 +1088,7 @@ def deserKey : Nat → Cfg → (Ty ⊕ Unit) → List Ev → Bool → Except DEr
       | .err e _ => .error (fix e)
       | .ok v c' => consumed c' v
     | .inr () =>
-      match deserStr c with
+      match deserStr cfg c with
       | .err e _ => .error (fix e)
       | .ok s c' => consumed c' (.str s)
 
